@@ -291,10 +291,20 @@ def run_one(seed, preset=None, tier="quick", want_case=False):
     viol = []
     overlap = [0]
 
-    def make_module(b):
-        m = types.ModuleType(b.mod_name)
+    # one module serving every bundle (its bake registers what belongs to the schema name it is given), handed to the
+    # engines as a name or as {"name": ..., "config": ...} with the same config for all
+    shared_module = sab_t.chance(35)
+    one_after_another = sab_t.chance(30)
+    by_name = {b.name: b for b in bundles}
+    if shared_module:
+        for b in bundles:
+            b.mod_name = "simv_c17_shared_%d" % seed
+
+    def make_module(b0):
+        m = types.ModuleType(b0.mod_name)
 
         async def bake(schema_name, config):
+            b = by_name[schema_name] if shared_module else b0
             loop.ev("bake_enter", b.i)
             cooking.add(b.i)
             overlap[0] = max(overlap[0], len(cooking))
@@ -306,13 +316,14 @@ def run_one(seed, preset=None, tier="quick", want_case=False):
             return ""
 
         m.bake = bake
-        sys.modules[b.mod_name] = m
+        sys.modules[b0.mod_name] = m
 
     cooking = set()
 
     async def cook(b):
         try:
-            engines[b.i] = await create_engine(b.sdl, schema_name=b.name, modules=[b.mod_name],
+            mods = [b.mod_name] if not (shared_module and b.i % 2) else [{"name": b.mod_name, "config": {"shared": True}}]
+            engines[b.i] = await create_engine(b.sdl, schema_name=b.name, modules=mods,
                                                coerce_list_concurrently=b.cfg["lc"], coerce_parent_concurrently=b.cfg["pc"])
         finally:
             cooking.discard(b.i)
@@ -380,7 +391,11 @@ def run_one(seed, preset=None, tier="quick", want_case=False):
             else:
                 loop.ev("cook_start", bi)
                 tasks.append(loop.create_task(cook(b)))
-                if ot.chance(50):
+                if one_after_another:
+                    # this engine is completely cooked before anything else happens (the other schedule shape: the
+                    # default lets all cooks overlap)
+                    await asyncio.gather(tasks[-1], return_exceptions=True)
+                elif ot.chance(50):
                     await asyncio.sleep(0)
         res = await asyncio.gather(*tasks, return_exceptions=True)
         await asyncio.gather(*sab_tasks, return_exceptions=True)
@@ -450,6 +465,8 @@ def run_one(seed, preset=None, tier="quick", want_case=False):
                    "four_bundles": int(len(bundles) == 4), "subscription_bundle": int(any(b.schema.subscription for b in bundles)),
                    "bundle_extends_builtin_scalar": int(any(b.extend_builtin for b in bundles)),
                    "broken_or_cancelled_cook_alongside": int(bool(saboteurs)),
+                   "one_module_shared_by_all_bundles": int(shared_module),
+                   "engines_cooked_one_after_another": int(one_after_another),
                    "300_other_schema_names_registered_meanwhile": int(bool(touched)),
                    "same_sdl_text_under_two_names": int(any(b.twin_of is not None for b in bundles)),
                    "twin_sdl_with_directive_on_extension": int(any(b.twin_of is not None and ("extend type Query @mark" in b.sdl or b.extend_builtin) for b in bundles)),
